@@ -531,9 +531,9 @@ def run(tier, seed, V, log, coq=True):
     n = CASES.get(tier, CASES["quick"])
 
     # 1-2: translator, KeysGen.vo, model runner
-    rc, msg = _translate(V, log)
+    trans_rc, msg = _translate(V, log)
     model_ok = True
-    if rc != 0:
+    if trans_rc != 0:
         model_ok = False
         findings.append({"what": "keys2coq cannot translate the current key definitions: %s" % msg[:300], "concrete": False,
                          "key": "C17:translator", "replay": _replay(V, "translator", {"broken": "translator keys2coq (fail closed)", "detail": msg})})
@@ -599,8 +599,8 @@ def run(tier, seed, V, log, coq=True):
                              "replay": _replay(V, "correspondence", {"broken": "correspondence real vs model", "line": i + 1, "real": a[:4000], "model": b[:4000],
                                                                      "difference": what, "reproduce": "harness keys -seed %d -n %d" % (seed, n)})})
 
-    # 6: proofs over the regenerated definitions
-    if coq and rc == 0:
+    # 6: proofs over the regenerated definitions (skipped when the translator failed: Gen/KeysGen.v is stale)
+    if coq and trans_rc == 0:
         t1 = time.time()
         ok, fail = _coq_make(V, "theories/Props/C17.vo", log)
         stats["t_coq_s"] = int(time.time() - t1)
